@@ -53,7 +53,7 @@ template<int I> struct RuleF {
 };
 
 // ------------------------------------------------------------------ scripted custom lexer (C18): answers come from the explorer
-struct LexAsk { int off; int answer; };            // answer: -1 fail, else idx * 64 + len
+struct LexAsk { int off; int answer; bool verbose; int line, col; };   // answer: -1 fail, else idx * 64 + len; what match() was told: verbose flag, source point
 struct LexScript {
     std::vector<int> choices;       // choice prefix to replay, then defaults (0)
     std::vector<int> taken, alts;   // what this run chose / how many alternatives existed at each ask
@@ -67,18 +67,18 @@ template<class It> auto ptr_of(const It& it) -> decltype(it.ptr) { return it.ptr
 template<class It> auto ptr_of(const It& it) -> decltype(it.p) { return it.p; }
 struct ScriptedLexer {
     template<typename Iterator, typename ErrorStream>
-    ctpg::recognized_term match(ctpg::match_options, ctpg::source_point, Iterator start, Iterator, ErrorStream&) {
+    ctpg::recognized_term match(ctpg::match_options mopts, ctpg::source_point msp, Iterator start, Iterator, ErrorStream&) {
         step();
         const char* p = ptr_of(start);
         int off = int(p - g_obs.base); int remaining = int(g_script.end - p);
-        for (const LexAsk& a : g_script.asks) if (a.off == off) { g_script.asks.push_back(a); return a.answer < 0 ? ctpg::recognized_term{} : ctpg::recognized_term(ctpg::size16_t(a.answer / 64), size_t(a.answer % 64)); }
+        for (const LexAsk& a : g_script.asks) if (a.off == off) { LexAsk again = a; again.verbose = mopts.verbose; again.line = (int)msp.line; again.col = (int)msp.column; g_script.asks.push_back(again); return a.answer < 0 ? ctpg::recognized_term{} : ctpg::recognized_term(ctpg::size16_t(a.answer / 64), size_t(a.answer % 64)); }
         int nalt = g_script.T * remaining + 1;    // (idx, len) pairs in order of len then idx, failure last
         size_t k = g_script.taken.size();
         int c = k < g_script.choices.size() ? g_script.choices[k] : 0;
         if (c >= nalt) throw HarnessStop{"script-divergence"};
         g_script.taken.push_back(c); g_script.alts.push_back(nalt);
         int answer = c == nalt - 1 ? -1 : (c % g_script.T) * 64 + (c / g_script.T + 1);
-        g_script.asks.push_back(LexAsk{off, answer});
+        g_script.asks.push_back(LexAsk{off, answer, mopts.verbose, (int)msp.line, (int)msp.column});
         return answer < 0 ? ctpg::recognized_term{} : ctpg::recognized_term(ctpg::size16_t(answer / 64), size_t(answer % 64));
     }
 };
